@@ -41,6 +41,22 @@ def main():
                 elif op[0] == "from_bytes":
                     target = obj if s["cls"] == "Generator" else obj.generator
                     res.append(bytes(target.generate_from_bytes(bytes.fromhex(op[1]))).hex())
+                elif op[0] == "from_view":
+                    target = obj if s["cls"] == "Generator" else obj.generator
+                    raw = bytes.fromhex(op[2])
+                    if op[1] == 1:
+                        carrier = bytearray(raw)
+                    elif op[1] == 2:
+                        carrier = memoryview(raw)
+                    elif op[1] == 3:
+                        buf = bytearray(2 * len(raw))
+                        buf[0::2] = raw
+                        buf[1::2] = bytes((0xA5 ^ (i & 0xFF)) for i in range(len(raw)))
+                        carrier = memoryview(buf)[::2]
+                    else:
+                        import array
+                        carrier = array.array("B", raw)
+                    res.append(bytes(target.generate_from_bytes(carrier)).hex())
                 elif op[0] == "reset":
                     obj.reset()
                     res.append("-")
